@@ -323,7 +323,7 @@ func checkC16(c *Check) {
 			return
 		}
 		fresh := base != nil && isFresh(P, base, 3)
-		ls := la.At(ins).clone()
+		ls := lockFor(la.At(ins), write)
 		accs = append(accs, access{class, write, ins, fn, fresh, ls})
 	}
 	for _, fn := range all {
